@@ -1,5 +1,5 @@
 \* Exhaustive, quick tier: leader with one follower, log end <= 3, boundaries 1..3, both stores.
-\* Measured: 15,916 distinct states, 568,068 transitions, depth 9 (about 20 s on an idle machine,
+\* Measured: 10,576 distinct states, about 400,000 transitions, depth 9 (about 20 s on an idle machine,
 \* 90 s with the machine at load 50).
 SPECIFICATION Spec
 CONSTANTS
@@ -16,6 +16,7 @@ CONSTANTS
   SyncStarts = {0, 2}
   SyncEnds = {0, 3}
   CapZeroUnbounded = FALSE
+  LastUncapped = FALSE
 VIEW View
 INVARIANTS TypeOK C10_PhysBound
 PROPERTIES C10_ReadWindow C10_Monotone C10_TrimCovered
